@@ -8,11 +8,21 @@
    a peer's endpoint ID is node-level ("dtn://p<i>/"), so [==] on peer EIDs and [SameNode] with the
    bundle's destination both are equality of node numbers.
 
-   This is the code *after* the three fix commits:
+   This is the code *after* the fix commits:
      (a) SprayAndWait.ReportFailure gives a copy back only for a peer that is in [sent],
      (b) BinarySpray.ReportFailure adds the announced copies back to metadata.remainingCopies
          (again only for a peer in [sent]),
-     (c) both do their read-modify-write under one write lock. *)
+     (c) both do their read-modify-write under one write lock,
+     (d) 2edd1c0 / 772c5cf: NotifyNewBundle of both algorithms records the node named by the
+         PreviousNodeBlock in [sent] in every branch - also for a bundle whose source is this node
+         and that comes back from a neighbour.  Such an entry excludes the node from
+         SenderForBundle without a copy having been handed to it: [sm_sent] is "peers holding a
+         copy from us" together with "the node the bundle came from".  ReportFailure does not
+         tell the two apart (it looks the failed peer up in [sent]), but it is only ever called
+         for a peer that SenderForBundle has just selected - which the previous node never is,
+         being in [sent] - or for a sender of the destination node after a failed direct delivery;
+         so the recorded previous node is given back as a copy exactly when it is the bundle's own
+         destination (excluded by [hist_wf], Proofs/SprayProofs.v; shown by C18_budget_needs_wf). *)
 From DTN Require Import Base SpecSpray.
 Open Scope N_scope.
 
@@ -57,7 +67,7 @@ Definition opt_list (o : option N) : list N := match o with Some x => [x] | None
 Definition spray_notify (c : sconf) (origin : bool) (blk prev : option N) : smeta :=
   match sc_algo c with
   | SprayVanilla =>
-      if origin then {| sm_rem := sc_L c; sm_sent := [] |}
+      if origin then {| sm_rem := sc_L c; sm_sent := opt_list prev |}   (* after fix 772c5cf: own bundle received back *)
       else {| sm_rem := spray_foreign_copies; sm_sent := opt_list prev |}
   | SprayBinary =>
       match blk with
@@ -219,7 +229,8 @@ Definition spray_attempt (c : sconf) (s : sstate) (choice : list N) : option (ss
     end.
 
 Inductive sevent :=
-| SeCreate (origin : bool) (dst : N) (blk prev : option N)   (* SendBundle / receive: NotifyNewBundle, then forward *)
+| SeCreate (origin : bool) (dst : N) (blk prev : option N)   (* SendBundle / receive: NotifyNewBundle, then forward;
+                                                                for a bundle the store knows: the duplicate is dropped *)
 | SePeerUp (cla node : N) (fail : bool)                      (* PeerAppeared: checkPendingBundles *)
 | SePeerDown (cla : N)
 | SeSetFail (cla : N) (fail : bool)                          (* the link's next sends fail / succeed *)
@@ -233,7 +244,12 @@ Definition set_peers (s : sstate) (ps : list speer) : sstate :=
 Definition spray_step (c : sconf) (s : sstate) (e : sevent) (choice : list N) : option (sstate * list ssend) :=
   match e with
   | SeCreate origin dst blk prev =>
-      if ss_created s then None
+      (* Core.receive drops a bundle whose ID the store knows ("ID is already known") before the
+         algorithm hears of it.  Otherwise - first creation, or the bundle has left the store
+         (delivered to its destination) and comes back from a neighbour - NotifyNewBundle
+         (re-)initialises the metadata, whether or not GarbageCollect has removed the old entry:
+         the node has no memory of the bundle, a new life of the bundle on this node begins. *)
+      if ss_stored s then Some (s, [])
       else spray_attempt c {| ss_peers := ss_peers s; ss_meta := Some (spray_notify c origin blk prev);
                               ss_stored := true; ss_created := true; ss_dst := dst; ss_blk := blk |} choice
   | SePeerUp cla node fail =>
@@ -278,6 +294,24 @@ Fixpoint spray_run (c : sconf) (s : sstate) (h : list (sevent * list N)) : optio
           | None => None
           | Some (s2, o2) => Some (s2, o1 ++ o2)
           end
+      end
+  end.
+
+(* The bundle enters the store with this event: a new life begins, with fresh metadata. *)
+Definition spray_enters (s : sstate) (e : sevent) : bool :=
+  match e with SeCreate _ _ _ _ => negb (ss_stored s) | _ => false end.
+
+(* [spray_run], but the transmissions are collected per life of the bundle on this node: [acc] are
+   the transmissions since the bundle last entered the store (nothing is transmitted while the
+   store does not know the bundle).  For a history with a single create this is [spray_run]. *)
+Fixpoint spray_life (c : sconf) (s : sstate) (acc : list ssend) (h : list (sevent * list N))
+  : option (sstate * list ssend) :=
+  match h with
+  | [] => Some (s, acc)
+  | (e, ch) :: t =>
+      match spray_step c s e ch with
+      | None => None
+      | Some (s1, o1) => spray_life c s1 (if spray_enters s e then o1 else acc ++ o1) t
       end
   end.
 
